@@ -1376,4 +1376,66 @@ theorem normalize_noUp (p : Bytes) (hnu : ∀ c ∈ splitSlash (afterLead p), c 
       rw [hg]; simpa [or_comm] using hd
     exact comps_render c cs (good_ne_nil (hg2 c (by simp))) (fun d hd => good_slashFree (hg2 d hd))
 
+/-! ### the href column: urlencode inside a single-quoted attribute -/
+
+theorem urlencodeByte_attrSafe : ∀ c : UInt8, attrSafe (urlencodeByte c) = true := by
+  apply forall_uint8
+  decide +kernel
+
+theorem attrSafe_append (a b : Bytes) : attrSafe (a ++ b) = (attrSafe a && attrSafe b) := by
+  simp [attrSafe, List.all_append]
+
+theorem attrSafe_urlencode (s : Bytes) : attrSafe (urlencode s) = true := by
+  induction s with
+  | nil => rfl
+  | cons c s ih =>
+    have : urlencode (c :: s) = urlencodeByte c ++ urlencode s := by simp [urlencode]
+    rw [this, attrSafe_append, urlencodeByte_attrSafe, ih]; rfl
+
+theorem attrSafe_no_quote (s : Bytes) (h : attrSafe s = true) : ∀ c ∈ s, (c != 39) = true := by
+  intro c hc
+  unfold attrSafe at h
+  rw [List.all_eq_true] at h
+  have := h c hc
+  simp only [Bool.and_eq_true] at this
+  exact this.1.1.1.1
+
+theorem takeWhile_stop (h rest : Bytes) (hq : ∀ c ∈ h, (c != 39) = true) :
+    (h ++ 39 :: rest).takeWhile (· != 39) = h := by
+  induction h with
+  | nil => simp
+  | cons a h ih =>
+    have ha := hq a (by simp)
+    rw [List.cons_append, List.takeWhile_cons]
+    simp only [ha, if_true]
+    rw [ih (fun c hc => hq c (List.mem_cons_of_mem _ hc))]
+
+/-- an anchor built the way `list_dir` builds it is read back as (href, text) by an HTML parser,
+provided the href contains no `'` -/
+theorem parseAnchor_build (href text : Bytes) (hq : ∀ c ∈ href, (c != 39) = true) :
+    parseAnchor (anchorOpen ++ href ++ anchorMid ++ text ++ anchorClose) = some (href, text) := by
+  unfold parseAnchor
+  have h1 : anchorOpen.isPrefixOf (anchorOpen ++ href ++ anchorMid ++ text ++ anchorClose) = true := by
+    rw [List.isPrefixOf_iff_prefix]
+    exact ⟨href ++ anchorMid ++ text ++ anchorClose, by simp⟩
+  have h2 : (anchorOpen ++ href ++ anchorMid ++ text ++ anchorClose).drop anchorOpen.length
+      = href ++ 39 :: (62 :: (text ++ anchorClose)) := by
+    simp [anchorMid]
+  rw [if_pos h1]
+  simp only [h2]
+  rw [takeWhile_stop href _ hq]
+  have h3 : (href ++ 39 :: 62 :: (text ++ anchorClose)).drop href.length = anchorMid ++ (text ++ anchorClose) := by
+    simp [anchorMid]
+  rw [h3]
+  have h4 : anchorMid.isPrefixOf (anchorMid ++ (text ++ anchorClose)) = true := by
+    rw [List.isPrefixOf_iff_prefix]; exact ⟨_, rfl⟩
+  rw [if_pos h4]
+  have h5 : (anchorMid ++ (text ++ anchorClose)).drop anchorMid.length = text ++ anchorClose := by simp
+  simp only [h5]
+  have h6 : (text ++ anchorClose).length - anchorClose.length = text.length := by simp
+  rw [h6]
+  simp
+
+theorem Row.anchor_eq (r : Row) : r.anchor = anchorOpen ++ r.href ++ anchorMid ++ r.text ++ anchorClose := rfl
+
 end Cppcms.C13
